@@ -268,5 +268,45 @@ func runC11(ctx *Ctx) {
 			}
 		}
 	}
+	// the same URL path twice, in every spelling of a path (trailing slash, doubled slash, parameters, the root), the two
+	// URL blocks holding different methods (so that only the path check can refuse); control: two different paths
+	{
+		paths := []string{"/cats", "/cats/", "/api/v1/cats/", "/cats/{id}", "/cats/{id}/", "/api//cats", "/", "/cats//", "/a.b/c-d/", "/cats/{id}//toys"}
+		inners := [][2]string{{"  GET\n    200 any\n", "  POST\n    200 any\n"}, {"  GET\n    200 any\n", "  Protocol json-rpc-2.0\n  Method foo\n    Params\n    {}\n"},
+			{"  Protocol json-rpc-2.0\n  Method foo\n    Params\n    {}\n", "  Protocol json-rpc-2.0\n  Method bar\n    Params\n    {}\n"}, {"  PUT\n    200 any\n", ""}}
+		for _, p := range paths {
+			for _, in2 := range inners {
+				for _, mid := range []string{"", "TYPE @t\n{}\n", "URL /other\n  DELETE\n    200 any\n"} {
+					for _, same := range []bool{true, false} {
+						q := p
+						if !same {
+							q = "/dogs" + p
+						}
+						doc := "JSIGHT 0.3\nURL " + p + "\n" + in2[0] + mid + "URL " + q + "\n" + in2[1]
+						res := RunProject(SingleFile([]byte(doc)), false)
+						ctx.Cov.Count([]byte(doc), true)
+						if res.Panic != "" {
+							continue
+						}
+						in := projectInput(SingleFile([]byte(doc)))
+						in["op"] = "fault"
+						secondLine := 1 + strings.Count(doc[:strings.LastIndex(doc, "URL "+q)], "\n")
+						if same {
+							ctx.Cov.Hit("fault: same URL path twice (path spellings)")
+							if res.Err == nil {
+								ctx.Violate(Violation{Kind: "wrong-output", Site: "static checks", What: fmt.Sprintf("two URL directives with the same path %q are accepted", p), Input: in,
+									Observed: "accepted", Expected: "rejected", Signature: "fault-accepted:same URL path twice"})
+							} else if int(res.Err.Line) != secondLine {
+								ctx.Violate(Violation{Kind: "wrong-output", Site: "static checks", What: fmt.Sprintf("the second URL directive of the path %q stands on line %d, the rejection points at line %d (%s)", p, secondLine, res.Err.Line, res.Err.Msg), Input: in,
+									Observed: res.Err.Line, Expected: secondLine, Signature: "fault-location:same URL path twice"})
+							}
+						} else if res.Err != nil {
+							ctx.Violate(Violation{Kind: "wrong-output", Site: "static checks", What: "the control document with two DIFFERENT URL paths is rejected: " + res.Verdict(), Input: in, Signature: "same-url-control-rejected"})
+						}
+					}
+				}
+			}
+		}
+	}
 	ctx.Cov.Component("single injected fault => rejection located at the offending directive (specification on the implementation)", ctx.Cov.Evaluations, len(ctx.Violations), "")
 }
